@@ -37,7 +37,7 @@ Definition ires_ok (h : nat) (lo hi : option key) (t : tree) (e : entry) (r : ir
       bounded h lo (Some s) L /\ bounded h (Some s) hi R /\ lo_lt lo s /\ hi_ok hi s /\ sep_fits s
       /\ Permutation (abs h L ++ abs h R) (e :: abs h t)
   | IDup _ => In (fst e) (keys (abs h t))
-  | IFull _ => exists c, In c (e :: abs h t) /\ ~ half_okP c
+  | IFull _ => ~ In (fst e) (keys (abs h t)) /\ exists c, In c (e :: abs h t) /\ ~ half_okP c
   | IErr er => er = EZeroSep
   end.
 
@@ -214,8 +214,8 @@ Proof.
     + unfold BTreeInv.cells_in in Hallin. rewrite Forall_forall in Hallin. apply Hallin. exact Hsepin.
     + apply cell_fits_sep. apply Hallfit. exact Hsepin.
   - (* right half refused *)
-    cbn [ires_ok]. rewrite abs_leaf. fold cs. apply (split_refusal_witness rm l e np mid lo hi); try assumption; reflexivity || (right; exact ER).
-  - cbn [ires_ok]. rewrite abs_leaf. fold cs. apply (split_refusal_witness rm l e np mid lo hi); try assumption; reflexivity || (left; exact EL).
+    cbn [ires_ok]. rewrite abs_leaf. fold cs. split; [exact Hn|]. apply (split_refusal_witness rm l e np mid lo hi); try assumption; reflexivity || (right; exact ER).
+  - cbn [ires_ok]. rewrite abs_leaf. fold cs. split; [exact Hn|]. apply (split_refusal_witness rm l e np mid lo hi); try assumption; reflexivity || (left; exact EL).
 Qed.
 
 Lemma leaf_put_ires (l : leaf) pos (e : entry) np lo hi :
